@@ -240,7 +240,7 @@ def kalman_filter_rule(ctx, rule="POLY-kalman-filter"):
     innov0 = sub(y0, mm(Cm, M0))
     ck.eq("filtered mean_0 = m0 + K0 (y_0 − C m0)", init[0], add(M0, mm(K0, innov0)))
     ck.eq("filtered cov_0 = P0 − K0 C P0", init[1], *cov_forms(P0, K0, Cm, R, S0))
-    lz = init[2]
+    lz = with_library_logpdf(init[2])
     logs = [x for x in subterms(lz) if is_call(x, name="jax.scipy.stats.multivariate_normal.logpdf")]
     if len(set(logs)) != 1:
         ck.fail("log marginal_0 = N(y_0; C m0, S0)", f"found {short(lz, ev, 200)}")
@@ -262,6 +262,8 @@ def kalman_filter_rule(ctx, rule="POLY-kalman-filter"):
         raise AnalysisError("kalman_filter: scan body does not return (mean, cov, logZ)")
     ck.eq("filtered mean_t = A m + K (y_t − C A m)", co[0], add(mpred, mm(K, innov)))
     ck.eq("filtered cov_t = P⁻ − K C P⁻ with P⁻ = A P Aᵀ + Q", co[1], *cov_forms(Ppred, K, Cm, R, S))
+    co = list(co)
+    co[2] = with_library_logpdf(co[2])
     logs = [x for x in subterms(co[2]) if is_call(x, name="jax.scipy.stats.multivariate_normal.logpdf")]
     if len(set(logs)) != 1 or not ck.mp.equal(co[2], add(c2, logs[0]))[0]:
         ck.fail("log marginal accumulates one Gaussian innovation term per step", f"found {short(co[2], ev, 200)}")
@@ -275,6 +277,101 @@ def kalman_filter_rule(ctx, rule="POLY-kalman-filter"):
     ck.done()
     # ---------- assembly / guard
     assemble(ctx, ev, s, sid, "state_space.kalman_filter", loc, n_out=2, final_idx=2)
+
+
+def _num(t):
+    return t[1] if t[0] == "const" and isinstance(t[1], (int, float)) and not isinstance(t[1], bool) else None
+
+
+def _coef(t):
+    """(numeric coefficient, list of non-numeric factors) of a product term, looking through unary minus and constant factors."""
+    if t[0] == "unop" and t[1] == "-":
+        c, f = _coef(t[2])
+        return -c, f
+    if t[0] == "binop" and t[1] == "*":
+        c1, f1 = _coef(t[2])
+        c2, f2 = _coef(t[3])
+        return c1 * c2, f1 + f2
+    if t[0] == "binop" and t[1] == "/" and _num(t[3]) is not None:
+        c1, f1 = _coef(t[2])
+        return c1 / _num(t[3]), f1
+    if _num(t) is not None:
+        return float(_num(t)), []
+    return 1.0, [t]
+
+
+def _addends(t, sign=1.0):
+    if t[0] == "binop" and t[1] in "+-":
+        return _addends(t[2], sign) + _addends(t[3], sign if t[1] == "+" else -sign)
+    if t[0] == "unop" and t[1] == "-":
+        return _addends(t[2], -sign)
+    return [(sign, t)]
+
+
+def explicit_gaussian_logpdf(t):
+    """An explicitly written zero-mean Gaussian log density over a Cholesky factor,
+        −½ ‖L⁻¹v‖² − (d/2) log 2π − Σ log diag L,   L = cholesky(S), L⁻¹v = solve_triangular(L, v, lower=True),
+    is N(v; 0, S) and is rewritten to the library term multivariate_normal.logpdf(v, zeros_like(v), S).  The triangular solve must be
+    told that the factor is lower (jnp.linalg.cholesky returns the lower factor; solve_triangular defaults to lower=False and would
+    read only its diagonal) — otherwise the expression is NOT this density and is left as it is."""
+    adds = _addends(t)
+    if len(adds) != 3:
+        return None
+    quad = const = logdet = None
+    for sgn, a in adds:
+        c, fs = _coef(a)
+        c *= sgn
+        if len(fs) == 1 and is_call(fs[0]) and fs[0][1][0] == "name" and fs[0][1][1] in ("jax.numpy.dot", "jax.numpy.vdot", "jax.numpy.inner") and len(fs[0][2]) == 2 \
+                and fs[0][2][0] == fs[0][2][1] and abs(c + 0.5) < 1e-12:
+            quad = fs[0][2][0]
+        elif len(fs) == 1 and is_call(fs[0], name="jax.numpy.sum") and fs[0][2][0][0] == "binop" and fs[0][2][0][1] == "**" and _num(fs[0][2][0][3]) == 2 and abs(c + 0.5) < 1e-12:
+            quad = fs[0][2][0][2]
+        elif len(fs) == 1 and fs[0][0] == "binop" and fs[0][1] == "@" and fs[0][2] == fs[0][3] and abs(c + 0.5) < 1e-12:
+            quad = fs[0][2]
+        elif len(fs) == 1 and is_call(fs[0], name="jax.numpy.sum") and is_call(fs[0][2][0], name="jax.numpy.log") and abs(c + 1.0) < 1e-12:
+            dg = fs[0][2][0][2][0]
+            if is_call(dg) and dg[1][0] == "name" and dg[1][1] in ("jax.numpy.diagonal", "jax.numpy.diag") and len(dg[2]) == 1:
+                logdet = dg[2][0]
+        elif abs(c + 0.5) < 1e-12 and len(fs) == 2 and any(is_call(f, name="jax.numpy.log") and f[2][0][0] == "binop" and f[2][0][1] == "*"
+                                                               and {(_num(f[2][0][2])), (f[2][0][3] == ("name", "jax.numpy.pi") or None)} for f in fs):
+            const = fs
+    if quad is None or logdet is None or const is None:
+        return None
+    L = logdet
+    if not (is_call(L) and L[1][0] == "name" and L[1][1].endswith("linalg.cholesky") and len(L[2]) == 1):
+        return None
+    S_ = L[2][0]
+    w = quad
+    if not (is_call(w) and w[1][0] == "name" and w[1][1].endswith("solve_triangular") and len(w[2]) == 2 and w[2][0] == L):
+        return None
+    if dict(w[3]).get("lower") != C(True):
+        return None
+    v = w[2][1]
+    return mvn_logpdf(v, call(N("jax.numpy.zeros_like"), v), S_)
+
+
+def with_library_logpdf(t):
+    """Rewrite explicit Gaussian log densities inside t to the library term (see explicit_gaussian_logpdf)."""
+    def f(x):
+        if x[0] == "binop" and x[1] in "+-":
+            # try the three-term tail of a longer sum as well: (acc + q + k + d)
+            r = explicit_gaussian_logpdf(x)
+            if r is not None:
+                return r
+            adds = _addends(x)
+            if len(adds) == 4:
+                for i in range(4):
+                    rest = [a for j, a in enumerate(adds) if j != i]
+                    tri = None
+                    for sg, a in rest:
+                        term = a if sg > 0 else ("unop", "-", a)
+                        tri = term if tri is None else ("binop", "+", tri, term)
+                    r = explicit_gaussian_logpdf(tri)
+                    if r is not None:
+                        sg, a = adds[i]
+                        return ("binop", "+", a if sg > 0 else ("unop", "-", a), r)
+        return None
+    return subst(t, f)
 
 
 def check_logpdf(ck, lg, y, mean, S, what):
